@@ -12,7 +12,10 @@
                                        on bearer b (observed on the client side of the link)
      cb(b, kind, c, len)               the client's notification / indication subscriber was called
      cfm(b)                            a Handle Value Confirmation arrived at the server on bearer b
-     ret(id, ok)                       API call id returned (ok = 1) or raised (ok = 0)
+     lost(b)                           the harness swallowed the Handle Value Confirmation of the indication
+                                       outstanding on bearer b (the server will give up after its time-out)
+     ret(id, ok)                       API call id returned (ok = 1) or raised (ok = 0; only a call one of whose
+                                       indications was never confirmed may raise)
      quiesce(p)                        nothing left to run; p = number of API calls still pending   *)
 EXTENDS Subs, Json, IOUtils, TLC, TLCExt
 
@@ -35,7 +38,9 @@ GLen   == Is("pdu") => \E t \in Queued(Ev.b, Ev.c) : t.kind = Ev.kind /\ t.len =
 GSlot  == Is("pdu") /\ Ev.kind = "ind" => slot[Ev.b] = 0                     \* previous indication confirmed
 GCb    == Is("cb")  => air[Ev.b] # <<>> /\ Head(air[Ev.b]) = EvPdu
 GCfm   == Is("cfm") => cfmdue[Ev.b] /\ slot[Ev.b] # 0
-GRet   == Is("ret") => Ev.ok = 1 /\ Ev.id \in 1..Len(calls) /\ Finished(Ev.id)
+GRet   == Is("ret") => /\ Ev.id \in 1..Len(calls) /\ Finished(Ev.id)
+                       /\ (Ev.ok = 1 \/ \E t \in tasks : t.call = Ev.id /\ t.st = "failed")
+GLost  == Is("lost") => slot[Ev.b] # 0
 GQuiet == Is("quiesce") => /\ Ev.p = 0
                            /\ \A k \in 1..Len(calls) : calls[k].st = "returned"
                            /\ \A t \in tasks : t.st \in {"done", "failed"}
@@ -50,6 +55,7 @@ Act == \/ Is("bearer") /\ SetMtu(Ev.b, Ev.m)
           /\ air'[Ev.b][Len(air'[Ev.b])] = EvPdu
        \/ Is("cb") /\ GCb /\ Callback(Ev.b)
        \/ Is("cfm") /\ Confirm(Ev.b)
+       \/ Is("lost") /\ Expire(Ev.b)
        \/ Is("ret") /\ GRet /\ Return(Ev.id)
        \/ Is("quiesce") /\ GQuiet /\ UNCHANGED vars
 
@@ -65,7 +71,7 @@ Stuck == /\ l <= Len(T)
          /\ ~ENABLED Step
          /\ PrintT(<<"REJECT", tid, l, Ev,
                      [owed |-> GOwed, kind |-> GKind, len |-> GLen, slot |-> GSlot, cb |-> GCb,
-                      cfm |-> GCfm, ret |-> GRet, quiet |-> GQuiet,
+                      cfm |-> GCfm, lost |-> GLost, ret |-> GRet, quiet |-> GQuiet,
                       cccd |-> cccd, slots |-> slot,
                       open |-> {t \in tasks : t.st \in {"queued", "awaiting"}}]>>)
          /\ UNCHANGED tvars
